@@ -374,6 +374,22 @@ def pseudo_mix_sweep():
             yield [dict(rest, at=PSEUDO_KINDS[k][i % len(PSEUDO_KINDS[k])]) for i, k in enumerate(combo)]
 
 
+def gen_dict_union(rng):
+    """(samples, dict_fields): a field that is a mapping (by option) in some samples and a value of another kind in others,
+    the mapping's own values needing simplification (int next to float, nulls, pseudo-type strings, nested objects)"""
+    f = rng.choice(["prices", "data", "meta"])
+    pool = [1, 2.5, None, "1", "x", True, [1], {"q": 1}, {"q": 2.5, "r": None}]
+    mapping = {"k%d" % i: rng.choice(pool) for i in range(rng.randint(2, 4))}
+    other = rng.choice(["n/a", 7, [1, 2], {"inner": 1}, 1.5])
+    samples = [{f: mapping, "id": 1}, {f: other, "id": 2}]
+    if rng.random() < 0.4:
+        samples.append({f: {"z": rng.choice(pool)}, "id": 3})
+    if rng.random() < 0.3:
+        samples.append({"id": 4})
+    rng.shuffle(samples)
+    return samples, [f]
+
+
 def gen_shared_samples(rng):
     return [gen_shared_shape(rng) for _ in range(rng.randint(1, 2))]
 
